@@ -354,12 +354,12 @@ def run(ctx):
 
 CLAIM = {
     'technique': 'fact typestate over all paths of read_lead (pin gates with linear forms), order facts in the option '
-                 'setter, piecewise-affine abstract interpretation of hex_to_int over the whole char range',
+                 'setter, piecewise-affine abstract interpretation of hex_to_int over the whole char range, pin-ownership inventory (who may write, free or hand over the pin fields)',
     'text': 'static analysis: decides C07-a..d - each success exit of read_lead passes, per pin, the unset edge or an '
             'equality edge against the stored value (memcmp over digest_size at the digest offset; header_length + '
             'lead length); the digest pin is only installed after type and length checks from a conversion that '
             'rejects every non-hex character; the accepted set of hex_to_int is computed exactly by abstract '
-            'interpretation and equals [0-9A-Fa-f] -> 0..15; zck_validate_lead propagates the verdict and rewinds.',
+            'interpretation and equals [0-9A-Fa-f] -> 0..15; zck_validate_lead propagates the verdict and rewinds. C07-e: only the option setters and the context life-cycle write, free or hand over the pins.',
     'note': 'trusted: clang 14 front end; the affine fragment (anything else is analysis-broken); char is signed 8 bit',
 }
 
